@@ -526,6 +526,10 @@ func runC17(c *engine.Ctx) {
 
 	// ---- R9 a failed first read does not crash the accept loop (shared with C16.R10) ----
 	c16ErrorPathDerefRule(c, "R9")
+
+	// ---- R10 channel typestate (shared with C16.R3): the dispatcher's done channel is closed in one place; a second
+	// close site panics the process when a decode error and a failed write meet ----
+	c16ChannelsPrefixed(c, engine.AnalyzeLocks(p), "R10")
 }
 
 // checkCodecDependency re-derives the facts the quick tier trusts by pin, from the dependency's own source.
